@@ -270,7 +270,7 @@ func c16Property(t *rapid.T) {
 			obj := r.objs[rapid.IntRange(0, len(r.objs)-1).Draw(t, "obj")]
 			op := rapid.SampledFrom([]string{"freeze", "freeze", "activate", "activate", "logout", "update", "register"}).Draw(t, "op")
 			reRegister := false
-			if op == "register" && strings.Contains(obj, ":") && rapid.Bool().Draw(t, "again") {
+			if op == "register" && rapid.Bool().Draw(t, "again") {
 				// the chain's admin registers an id that already has a record (whatever its status, also a logged-out
 				// one) once more under a fresh name: a record is only ever created for an id without one
 				reRegister = true
@@ -296,6 +296,13 @@ func c16Property(t *rapid.T) {
 					cand = happy
 				}
 				tx = w.BVM(own, constant.RuleManagerContractAddr, "UpdateMasterRule", pb.String("chainA"), pb.String(cand), pb.String("r"))
+			case op == "register" && reRegister && !isSvc:
+				// another account registers an appchain id that already has a record (also a logged-out one) under a fresh name
+				fresh := sim.Outsiders[newSvcs%len(sim.Outsiders)]
+				tx = w.BVM(fresh, constant.AppchainMgrContractAddr, "RegisterAppchain",
+					pb.String(obj), pb.String(fmt.Sprintf("name-again-%d", newSvcs)), pb.Bytes(nil), pb.String("ETH"), pb.Bytes(nil),
+					pb.String("broker"), pb.String("desc"), pb.String(happy), pb.String(""), pb.String(fresh.Addr.String()), pb.String("reason"))
+				op = "register-again"
 			case op == "register" && reRegister:
 				p := strings.Split(obj, ":")
 				tx = w.BVM(own, constant.ServiceMgrContractAddr, "RegisterService", pb.String(p[0]), pb.String(p[1]), pb.String(fmt.Sprintf("svc-again-%d", newSvcs)),
